@@ -544,11 +544,6 @@ def random_map_input(rng):
     return {"target": "map", "prefix": prefix, "start": start, "ops": ops}
 
 
-def _sanitised(target, op):
-    from dagrt.codegen.utils import make_identifier_from_name
-    return (op[0] == "func", make_identifier_from_name(op[1]).lower() if len(op) > 1 else "")
-
-
 def nontrivial(inp):
     """at least two different keys whose sanitised forms coincide up to case (so that uniquifying or
     the target's comparison matters), or a name of an adversarial class (long / digit first / keyword /
